@@ -93,6 +93,10 @@ func c08WalkSite(d *Defs, steps []c08Step, doc JV) (shape string, want []string,
 	i := 0
 	for guard := 0; guard < 200; guard++ {
 		switch cur.Kind {
+		case SNullable:
+			parts = append(parts, "nullable")
+			cur = cur.Elem
+			continue
 		case SRef:
 			t := d.lookup(cur.Ref)
 			if t == nil {
@@ -225,6 +229,9 @@ func c08KindFits(d *Defs, s *Src, v JV) bool {
 	s = d.resolve(s)
 	if s == nil {
 		return false
+	}
+	if inner, ok := s.unwrap(); ok {
+		return v.isNull() || c08KindFits(d, inner, v)
 	}
 	switch s.Kind {
 	case SAny:
@@ -368,7 +375,8 @@ func c08CanonValidate(reply string) (string, []c08Viol) {
 	return reply, nil
 }
 
-var c08ConstraintKinds = map[string]bool{"min-1": true, "max+1": true, "minLength-1": true, "maxLength+1": true}
+var c08ConstraintKinds = map[string]bool{"min-1": true, "max+1": true, "minLength-1": true, "maxLength+1": true,
+	"onExclusiveBound": true} // a value exactly on an exclusive bound (stream c08-excl)
 var c08StrictKinds = map[string]bool{"undeclaredKey": true, "missingRequired": true, "nullRequired": true, "wrongType": true,
 	"wrongDiscriminator": true, "absentDiscriminator": true,
 	// only in pinned cases: null at an array-element / map-value position, the document `null`
@@ -421,6 +429,11 @@ func c08Oracle(kind string, want []string, wantOK bool, vcanon string, viols []c
 		if len(viols) != 1 {
 			return "FAIL validate-extra-reports"
 		}
+	case kind == "omitDefaulted":
+		// a required field that HAS a default may be absent: the strict decoder must accept
+		if !strictOK {
+			return "FAIL strict-rejected-defaulted-absent"
+		}
 	case c08StrictKinds[kind]:
 		if strictOK {
 			return "FAIL strict-accepted"
@@ -434,6 +447,7 @@ func c08Oracle(kind string, want []string, wantOK bool, vcanon string, viols []c
 type c08Doc struct {
 	kind, path string
 	doc        JV
+	base       int // omitDefaulted: index+1 of the document the member was removed from (0 = none)
 }
 
 func c08CaseText(kind, path, shape string, defs *Defs, doc JV) string {
@@ -445,6 +459,7 @@ func init() {
 		seed := uint64(argInt(args, "seed", 1))
 		ndocs := argInt(args, "docs", 6)
 		nfaults := argInt(args, "faults", 14)
+		nomit := argInt(args, "omit", 0) // per valid document: variants omitting one required-with-default member
 		formats := strings.Split(args["formats"], ",")
 		if args["formats"] == "" {
 			formats = []string{"jsonschema"}
@@ -494,10 +509,17 @@ func init() {
 				if err != nil {
 					return fmt.Errorf("%s line %d: %w", pf, ln+1, err)
 				}
-				cur.docs = append(cur.docs, c08Doc{f[2], f[3], doc})
+				cur.docs = append(cur.docs, c08Doc{f[2], f[3], doc, 0})
 			}
 		} else {
 			err = iterDefs(args, func(i int, d *Defs) error {
+				tr := newRng(seed*6151 + uint64(i)*13 + 1)
+				if args["aliasify"] == "1" {
+					d = c08Aliasify(d, tr)
+				}
+				if args["zerodefaults"] == "1" {
+					d = c08ZeroDefaults(d, tr)
+				}
 				for _, f := range formats {
 					c := lab.AddCase(d, f)
 					cases = append(cases, &cs{c: c})
@@ -544,14 +566,36 @@ func init() {
 			r := newRng(seed*7919 + uint64(c.Idx)*31 + 5)
 			dg := newDocGen(c.Defs, r, defaultDocOpts())
 			for n := 0; n < ndocs && !k.fixed; n++ {
-				k.docs = append(k.docs, c08Doc{"valid", "$", dg.validDoc()})
+				vd := dg.validDoc()
+				k.docs = append(k.docs, c08Doc{"valid", "$", vd, 0})
+				if nomit > 0 {
+					dg.rich = true
+					base := dg.validDoc()
+					dg.rich = false
+					om := c08OmitDocs(c.Defs, base, r, nomit)
+					if len(om) > 0 {
+						k.docs = append(k.docs, c08Doc{"valid", "$", base, 0})
+						bi := len(k.docs)
+						for _, o := range om {
+							o.base = bi
+							k.docs = append(k.docs, o)
+						}
+					}
+				}
 			}
 			for n := 0; n < nfaults && !k.fixed; n++ {
 				fd, ok := dg.faultDoc(nil)
 				if !ok {
 					break
 				}
-				k.docs = append(k.docs, c08Doc{fd.Kind, fd.Path, fd.Doc})
+				bi := 0
+				if c08ConstraintKinds[fd.Kind] {
+					// the valid document the fault was injected into runs too: a rejection of the fault
+					// document by the decoders is attributable to the fault only if the base is accepted
+					k.docs = append(k.docs, c08Doc{"valid", "$", fd.Base, 0})
+					bi = len(k.docs)
+				}
+				k.docs = append(k.docs, c08Doc{fd.Kind, fd.Path, fd.Doc, bi})
 			}
 			for di, d := range k.docs {
 				js := d.doc.json()
@@ -577,6 +621,13 @@ func init() {
 				wantOK = false // the constrained field itself is gone (shrinking candidates)
 			}
 			verdict := c08Oracle(d.kind, want, wantOK, vcanon, viols, srep)
+			if d.base > 0 && (strings.HasPrefix(verdict, "FAIL strict-rejected") || strings.HasPrefix(verdict, "FAIL validate-abnormal")) {
+				// attributable to the omission only if the document it was derived from is accepted
+				bs := si - (s.d - (d.base - 1))
+				if bs >= 0 && !strings.HasPrefix(replies[2*bs+1], "ok ") {
+					verdict = "ok base-document-rejected-too"
+				}
+			}
 			fmt.Fprintf(out, "D\t%s\t%s\t%s\t%s\t%s\t%s\t%s\t%s\t%s\t%s\n", s.k.c.ID, d.kind, d.path, shape,
 				d.doc.json(), d.doc.sexp(), vcanon, srep, verdict, site)
 		}
